@@ -53,6 +53,7 @@ func checkC01(p *Prog, r *Report) {
 	c01Operators(p, r)
 	c01Widths(p, r)
 	c01PassThrough(p, r)
+	checkR01h(p, r)
 	// clauses of C01 decided by the analyses of other properties
 	r.Rule("R01e", "early returns and loop control (decided by the C02 analysis R02e): return/break/continue are translated only where their control effect is available and the must-end-in-control-effect analysis is sound", 8)
 	r.Rule("R01f", "machine encoding and formatting primitives used by translated programs (decided by the C15/C16 analyses): little-endian Put/Get delegation, canonical decimal UInt64ToString", 5)
